@@ -87,6 +87,7 @@ func packagePurity(p *Program, r *Reporter, rule, pkgPath string) {
 }
 
 func checkC13(p *Program, r *Reporter) {
+	unitsRuleByName(p, r, "genLiveSegment")
 	r.Explanation = "Static analysis of structural necessary conditions of C13: (a) events-per-minute values other than 1, 2, 3 are rejected: the validator's error is returned on all non-nil paths both in the configuration check and in the event constructor; " +
 		"(b) events are constructed only for video (the constructor call is control-dependent on contentType == video and on the setting being present) and attached only when one was returned; the interval handed to the constructor depends on the segment's own start time and duration and on the media timescale; " +
 		"(c) the MPD announces the in-band event stream exactly under 'video' and 'setting present' (no other condition but loops), with the scheme constant the events carry; (d) the SCTE-35 package keeps no state between calls; its divisions have divisors that are not request-controlled zero. " +
